@@ -17,13 +17,20 @@ Engines
     for EVERY script parse() accepts (no guard on variables since the repair of F-C05-looplocal-reinit: names first
     assigned inside `while True:` persist); a script with anything after the main loop must be rejected with ValueError
     (repair of F-C05-postloop-in-setup / F-C05-second-main-loop-appended) - if one is accepted again it is compared
-    with CPython like every other accepted script."""
+    with CPython like every other accepted script;
+  * animations started from helper functions (harness/props/c05_animfn.py, text level): the LCD contents after setup() and after
+    every pass must equal those of the inline spelling of the same script (each started animation ticked once per pass on its own state);
+  * pin EXPRESSIONS (harness/props/c05_pinexpr.py, coq/Lang/EmitPin.v): straight-line scripts whose devices take `pin`, `pin + k`
+    as pin arguments with the variable re-assigned between declarations; the EXECUTED firmware trace with numeric pins is compared
+    with the model's and, inside the model's guard `pins_tracked`, judged by the configured-before-use monitor."""
 from __future__ import annotations
 
 import re
 
 from harness import common as C
 from harness import fw
+from harness.props import c05_pinexpr as PX
+from harness.props import c05_animfn as AF
 
 META = {
     "id": "C05",
@@ -2095,6 +2102,13 @@ def run(ctx: C.Ctx):
                     ctx.disagree("CPython trace for N passes is not a prefix of the trace for 3 passes", r["prog"]["src"], n, None)
             prefix_checked += 1
 
+    # ---- pin expressions: variable pins re-assigned between declarations, judged on the executed firmware
+    pin_findings = [f for f in open_findings if f["witness"].get("family") == "pinexpr"]
+    open_findings = [f for f in open_findings if f["witness"].get("family") != "pinexpr"]
+    n_pin, pin_dist, pin_samples = PX.run_family(ctx, pin_findings)
+    # ---- animations started from helper functions: same display as the inline spelling after setup() and every pass
+    n_animfn = AF.run_family(ctx, thorough)
+
     # ---- known findings: replay the listed witnesses on the real code
     for f in open_findings:
         w = f["witness"]
@@ -2122,10 +2136,10 @@ def run(ctx: C.Ctx):
 
     n_inside = stats["in_guard_python"]
     ctx.coverage.update({
-        "evaluations": len(progs) + stats["monitor_runs"] + prefix_checked + n_matrix,
+        "evaluations": len(progs) + stats["monitor_runs"] + prefix_checked + n_matrix + n_pin + n_animfn,
         "distinct_nontrivial": len({p["src"] for p in progs if any(it[0] == "main" for it in p["items"]) or p["cls"] == "nomain"}),
-        "rule": "seeded structured scripts (classes below; nested blocks are if / if-else / for / while / try-except; classes looplocal_*: names first bound inside `while True:` (directly, behind an if, behind two header lines of if / for / while / try in every order) and accumulated from pass to pass; postloop / twoloops: statements / a second `while True:` after the main loop (must be rejected); classes prom_*: names first bound inside an if / else / for / while / try / except block of the prologue and re-assigned by plain assignments in `while True:`; brk_*: `break` behind every chain of if / else / try / except lines up to depth 2 (3 in the thorough tier), with and without an inner for / while; plus the text-level break placement matrix incl. elif / typed and multiple handlers / nested `while True:`); every script goes through real parse() (IR compared node by node with the model), real emit() + g++ + mock core for 3 passes (trace compared with the model's exec; extracted and Python monitors on the real trace; markers/values compared with CPython for every N in 0..3 by prefix, the prefix property itself checked on a sample). non-trivial = distinct script text.",
-        "samples": [progs[1]["src"], progs[4]["src"]],
+        "rule": "seeded structured scripts (classes below; nested blocks are if / if-else / for / while / try-except; classes looplocal_*: names first bound inside `while True:` (directly, behind an if, behind two header lines of if / for / while / try in every order) and accumulated from pass to pass; postloop / twoloops: statements / a second `while True:` after the main loop (must be rejected); classes prom_*: names first bound inside an if / else / for / while / try / except block of the prologue and re-assigned by plain assignments in `while True:`; brk_*: `break` behind every chain of if / else / try / except lines up to depth 2 (3 in the thorough tier), with and without an inner for / while; plus the text-level break placement matrix incl. elif / typed and multiple handlers / nested `while True:`); every script goes through real parse() (IR compared node by node with the model), real emit() + g++ + mock core for 3 passes (trace compared with the model's exec; extracted and Python monitors on the real trace; markers/values compared with CPython for every N in 0..3 by prefix, the prefix property itself checked on a sample). non-trivial = distinct script text.  Pin-expression family (coq/Lang/EmitPin.v): straight-line scripts with one or two int globals; Led / RGBLed / Ultrasonic / Buzzer / DCMotor / Button declared before the main loop and (hoisted kinds) at its top with pin arguments `v`, `v + k` or literals; the variable advanced (`v += w`, `v = v + w`, `v = u + 1`, `v = 6`) between declarations, inside the loop, before hoisted declarations; names re-bound to the same text; exhaustive over in-place kinds x {2,3 devices} x {commanded after each declaration, only the last}; real emit() + g++ + mock for 3 passes, numeric pinMode / access events compared with the model's executed trace and, inside the guard, judged by the monitor.",
+        "samples": [progs[1]["src"], progs[4]["src"]] + pin_samples,
         "distribution": {"classes": cls_count, "parse_verdicts": stats["verdicts"], "ir_nodes_compared": stats["ir_nodes"],
                          "sketches_run": stats["sketches"], "sketches_not_compiled": stats["not_compiled"],
                          "abstract_trace_events_compared": stats["trace_events"], "model_says_c_undefined": stats["c_undef"],
@@ -2149,11 +2163,14 @@ def run(ctx: C.Ctx):
                          "main_loop_headers_with_trailing_comment": sum(p.get("comments", (0, 0))[0] for p in progs),
                          "comment_only_lines": sum(p.get("comments", (0, 0))[1] for p in progs),
                          "fixed_entries_replayed_first": fixed_replayed,
+                         "pin_expression_family": pin_dist,
+                         "animation_from_function_spellings_compared_with_inline": n_animfn,
                          "device_kinds_setup": sorted({d[0] for p in progs for d in p["devs"].values() if d[2] == "setup"}),
                          "device_kinds_loop": sorted({d[0] for p in progs for d in p["devs"].values() if d[2] == "loop"})},
         "exhaustive": False,
-        "guard": "oracle vs CPython: every generated script that parse() accepts and whose reference run reads no unbound name (CPython would raise NameError: outside the property) - no guard on variables (names first assigned inside `while True:`, directly or behind one or two header lines, and names hoisted twice in the prologue are generated on purpose: classes looplocal_*, setup_inner, prom_for_if, persistence templates loop_first_* and setup_double_hoist); a script with anything after the main loop must be rejected with ValueError (classes postloop, twoloops, after-main-loop templates) and is compared with CPython like any other script if it is ever accepted again; configure-before-use monitors: model says well_placed (devices declared by top-level statements, loop-top declarations only of the hoisted kinds, Buzzer/LCD/SerialMonitor names bound once, a device name bound several times only with one main loop as last item, one mode per pin, and the static resolution check: with emit()'s bindings and dedup keys at each point of the text every statement / poll / tick / handler only touches pins configured by the hoisted block or an earlier in-place configuration). Outside: F-C05-button-rebound-unconfigured, F-C05-ultrasonic-rebound-early-measure. F-C05-looplocal-reinit, F-C05-postloop-in-setup and F-C05-second-main-loop-appended are kind=fixed: they exclude nothing, their witnesses are replayed first on every run (reject-or-preserve on the witness script) and a failing one is a VIOLATION. Comments are inside the guard since /repo 3df520b (F-C05-main-header-comment is kind=fixed: it excludes nothing, generated scripts carry trailing comments on the main-loop header and comment-only lines at any column, its witness is replayed first on every run). The break guard, housekeeping (hk_ok), no-pass-cut-short and motor safe-stop oracles have no guard.",
+        "guard": "oracle vs CPython: every generated script that parse() accepts and whose reference run reads no unbound name (CPython would raise NameError: outside the property) - no guard on variables (names first assigned inside `while True:`, directly or behind one or two header lines, and names hoisted twice in the prologue are generated on purpose: classes looplocal_*, setup_inner, prom_for_if, persistence templates loop_first_* and setup_double_hoist); a script with anything after the main loop must be rejected with ValueError (classes postloop, twoloops, after-main-loop templates) and is compared with CPython like any other script if it is ever accepted again; configure-before-use monitors: model says well_placed (devices declared by top-level statements, loop-top declarations only of the hoisted kinds, Buzzer/LCD/SerialMonitor names bound once, a device name bound several times only with one main loop as last item, one mode per pin, and the static resolution check: with emit()'s bindings and dedup keys at each point of the text every statement / poll / tick / handler only touches pins configured by the hoisted block or an earlier in-place configuration). Outside: F-C05-button-rebound-unconfigured, F-C05-ultrasonic-rebound-early-measure. F-C05-looplocal-reinit, F-C05-postloop-in-setup and F-C05-second-main-loop-appended are kind=fixed: they exclude nothing, their witnesses are replayed first on every run (reject-or-preserve on the witness script) and a failing one is a VIOLATION. Comments are inside the guard since /repo 3df520b (F-C05-main-header-comment is kind=fixed: it excludes nothing, generated scripts carry trailing comments on the main-loop header and comment-only lines at any column, its witness is replayed first on every run). The break guard, housekeeping (hk_ok), no-pass-cut-short and motor safe-stop oracles have no guard.  Pin-expression family: the numeric-pin monitor judges a script iff the model's `pins_tracked` holds (static tracking over the emitted straight line: a pin text counts as configured only while no variable it mentions has been assigned since the pinMode that evaluated it ran; a request whose emit() key (device name, pin text, role) is already in the set configures nothing).  Outside: F-C05-pinvar-rebound-same-text, F-C05-pinvar-command-reads-late, F-C05-pinvar-hoisted-reads-early, F-C05-pinvar-looptop-reads-early (witnesses replayed every run; scripts outside the guard are still compared with the model event by event).",
         "unmodelled": ["devices declared inside nested blocks (outside the property's quantifier)",
+                       "pin expressions: the model (EmitPin.v) is straight-line (no nested blocks around variable-pin declarations), expressions are literals, `v`, `v + k` over int globals; Servo / LCD / Potentiometer pins stay literal (a Potentiometer pin must be a literal for parse(); a Servo object is attached once per name and its writes go to the object, so attach-before-write cannot depend on the pin value); which numeric pin Python's object would drive (value at declaration time) is not compared - only that every pin the firmware touches was configured first; within one block of accesses between two pinMode events the model and the firmware are compared as sets of (pin, direction)",
                        "re-binding of a Buzzer / LCD / SerialMonitor name (not of the hoisted set; names kept unique by the guard)",
                        "which COMMAND the parser emits for a method shared by two classes when a name was bound to both (`on`/`off` of a name that was ever an RGBLed are parsed as RGBLed commands and drive the old RGB pins - configured, so not a C05 matter; a behaviour-preservation defect): likewise `read` of a name that was ever a Servo is the Servo getter; generated re-binding scripts use methods only one class has (toggle, set_color, write, set_speed, measure_distance; `read` only when the name is never a Servo)",
                        "a re-bound Servo name keeps driving the pin of its FIRST declaration (one Servo object per name, attached once) and a re-bound Ultrasonic name always measures on the pins of its LAST declaration: modelled as is (the commanded pins are configured, configure-before-use holds on the trace); that the commands reach the wrong pin is a behaviour-preservation defect outside this property's statement",
@@ -2164,7 +2181,7 @@ def run(ctx: C.Ctx):
                        "`elif` chains, several `except` clauses, typed handlers (`except E as e:`), a nested `while True:`: not in the Gallina model; they are in the text-level break placement matrix (parse() verdict and BreakStmt placement in the real Program for every chain of header lines up to depth 2, depth 3 sampled / exhaustive in the thorough tier)",
                        "`except` handlers never run (nothing in the generated fragment raises, in CPython as in C++): the model has them for the break guard, for promotion and for the IR only; exception semantics themselves are outside C05",
                        "a nested `while x:` is modelled with 64 iterations of fuel (a run that needs more sets the outside-the-model flag; generated loops count down from <= 3)",
-                       "`continue` (C01/C07), functions other than marker-only button handlers, functions reading globals",
+                       "`continue` (C01/C07), functions other than marker-only button handlers, functions reading globals; lcd.animate call sites inside helper functions are not in the Gallina model (C18's DLCDInject.v has them): text-level oracle c05_animfn.py (display after setup() and after each of 8 passes equals the inline spelling's, two animations per script, styles scroll / typewriter / blink, one or two helper functions in either definition order)",
                        "LCD / Buzzer / SerialMonitor declared inside `while True:` (not hoisted kinds; outside the quantifier)",
                        "expression layer (C01-C03): only int literals and `x + literal` are used", "timing: animations use speed_ms=0 so that every tick is observable",
                        "order of several names promoted out of one block (set iteration order, C10): generated blocks introduce at most one name"],
@@ -2205,6 +2222,10 @@ def _generic_obs(events, python):
 
 def replay(data):
     case = data.get("case") or {}
+    if isinstance(case, dict) and case.get("family") in ("pinexpr", "pinexpr-servo"):
+        return PX.replay(case)
+    if isinstance(case, dict) and case.get("family") == "animfn":
+        return AF.replay(case)
     src = case.get("src") if isinstance(case, dict) else (case if isinstance(case, str) else None)
     if not src:
         print("replay: no script in this file (proof failure: see the fields above)")
